@@ -72,6 +72,12 @@ pub fn run(tier: Tier) -> i32 {
             (0x22, vec![0x16]),
             (1 << 62, vec![]),
             (0x4000_0000_0000_0001, vec![0x16]),
+            // IDs that alias LZMA2 (0x21) when truncated to 8 / 16 / 32 bits
+            (0x121, vec![0x16]),
+            (0x2021, vec![0x16]),
+            (0x1_0021, vec![0x16]),
+            (0x1_0000_0021, vec![0x16]),
+            (0x4000_0000_0000_0021, vec![0x16]),
         ];
         for (id, props) in &others {
             for bi in 0..f.blocks.len().min(2) {
